@@ -512,6 +512,10 @@ impl Ctx {
                     let field = match fk.split_once(':') {
                         Some((_, "dots")) => "........".to_string(),
                         Some((k, "trunc3")) => format!("{}.link", &self.km.idstr(k)[0..3]),
+                        // names that merely resemble the pattern: "<step>.<id8>.link.link", "<step>..<id8>.link", both
+                        Some((k, "linklink")) => format!("{}.link", &self.km.idstr(k)[0..8]),
+                        Some((k, "lead")) => format!(".{}", &self.km.idstr(k)[0..8]),
+                        Some((k, "leadlinklink")) => format!(".{}.link.link", &self.km.idstr(k)[0..8]),
                         _ => self.km.idstr(fk)[0..8].to_string(),
                     };
                     let name = format!("{}.{}.link", f["step"].as_str().unwrap(), field);
